@@ -38,7 +38,76 @@ FRESH = U('pyvc.fresh', 'unit', 'FRESH', needs_k3=True)
 TAL_BASIC = [K("k3::S-Define"), K("k3::S-Condition"), K("k3::S-Content"), K("k3::S-OmitTag"),
              K("k3::S-Attribute"), K("k3::S-Repeat")]
 
+S_TALES = [K("k3::S-Pipe3"), K("k3::S-Not"), K("k3::S-Exists")]
+S_INTERP = [K("k3::S-Interp-text"), K("k3::S-Interp-off")]
+S_I18N = [K("k3::S-Translate-name"), K("k3::S-Translate-id"), K("k3::S-Translate-empty"),
+          K("k3::S-I18nDomain"), K("k3::S-I18nContext"), K("k3::S-I18nTarget")]
+S_METAL = [K("k3::S-UseExternal"), K("k3::S-MacroUseInternal"), K("k3::S-MacroBody")]
+K2Q = [K("compiler.py::K2.__quote"), K("compiler.py::K2.__quote@char")]
+K3TECH = TECH + "; applied to code emitted by the real compiler for schema templates (K3)"
+
+
+def k3prop(text, units, not_decided=(), extra_note=""):
+    return {"technique": K3TECH, "level_text": text, "level_note": K3_NOTE + extra_note,
+            "units": units, "not_decided": list(not_decided), "assumptions": K3_ASSUME}
+
+
 PROPS = {
+    "C04": k3prop(
+        "Emitted code for pipes, not:, exists: is proved to evaluate each alternative exactly once, to "
+        "fall through only on the five lookup-type exception classes (real class hierarchy "
+        "axiomatised) and to propagate anything else; every schema additionally proves that each "
+        "reached expression is evaluated exactly once and unreached ones never.",
+        S_TALES + TAL_BASIC + S_INTERP + [FRESH],
+        ["the Python sub-grammar (comprehensions, lambdas) and NameLookupRewriteVisitor scoping",
+         "attribute->item fallback (lookup_attr), ExpressionParser prefix dispatch (K1, pending)",
+         "import:/string:/structure: prefixes"]),
+    "C05": k3prop(
+        "Emitted save/assign/restore brackets of tal:define and tal:repeat are proved to restore the "
+        "outer binding (or undefinedness) on normal exit, globals are proved to persist in scope and "
+        "in the render-wide context, and macro calls receive a copy of the scope and merge globals back.",
+        [K("k3::S-Define"), K("k3::S-Repeat"), K("k3::S-UseExternal"), K("k3::S-MacroUseInternal"), FRESH],
+        ["utils.Scope methods (K1, pending; their two-layer semantics is the model used by K3)",
+         "reserved-name rejection (pending)",
+         "restore after tal:on-error recovery (known limitation of the emitted code: no finally)"]),
+    "C06": k3prop(
+        "Emitted code for ${...} in text is proved to append the literal parts unchanged with $$ "
+        "un-doubled, each expression converted once; with meta:interpolation off nothing is evaluated.",
+        S_INTERP,
+        ["the delimiter search of Interpolator.__call__ (regex + validity loop; bounded stand-in pending)",
+         "attribute / comment / CDATA contexts (pending)", "entity decoding of the expression text"]),
+    "C07": k3prop(
+        "For a dynamic attribute the emitted code is proved to call the escape routine once with the "
+        "attribute's own quote character and static text as default, to drop the attribute for None, "
+        "and the escape routine itself (K2) maps `default` to the static text as written.",
+        [K("k3::S-Attribute")] + K2Q,
+        ["tal.prepare_attributes merge (K1, pending)", "boolean and dict attributes (pending)"]),
+    "C09": k3prop(
+        "The calling convention of use-macro (same stream, copy of the scope, same render-wide "
+        "context, current i18n parameters, macroname bound, globals merged back) and the slot "
+        "protocol of a macro body (filler taken once, called instead of the default content) are "
+        "proved on the emitted code.",
+        S_METAL,
+        ["'equals inlining' is reduced to calling convention + slot protocol + A-COMP",
+         "extend-macro chains and nested uses (deque discipline across call histories)",
+         "Macros.__getitem__/names, PageTemplate.include (pending)"]),
+    "C10": k3prop(
+        "Emitted translation blocks are proved to call translate exactly once with the explicit or "
+        "computed (collapsed, trimmed, ${name}) message id, the mapping of named children, the "
+        "computed default and the current domain/context/target, to output exactly its result, and "
+        "to skip empty content; domain/context/target are set for the subtree and restored; message "
+        "objects are offered to translate exactly once by the conversion routine (K2).",
+        S_I18N + [K("compiler.py::K2.__quote")] + [FRESH],
+        ["i18n:attributes and implicit translation (pending)", "simple_translate interpolation",
+         "nested translate blocks (by induction through HoleC)"]),
+    "C12": k3prop(
+        "In every schema, on every normal and exceptional path, the position token in force when an "
+        "expression is evaluated is proved to be the recorded position of exactly that expression's "
+        "text, and the token table entries are checked against the template source.",
+        TAL_BASIC + S_TALES + S_INTERP + [K("k3::S-OnError-keep"), K("k3::S-I18nTarget"),
+                                            K("k3::S-UseExternal")],
+        ["BaseTemplate.render exception flow and create_formatted_exception (pending)",
+         "ExceptionFormatter record order (pending)"]),
     "C01": {
         "technique": TECH + "; applied to code emitted by the real compiler for schema templates (K3)",
         "level_text": "For each TAL statement the emitted render code is proved, for all values, all "
